@@ -37,46 +37,56 @@ def make_input(path, case):
     extra = {}
     if case['in_rgids']:
         extra['RG'] = [{'ID': x, 'SM': 'insample', 'LB': 'lib', 'PL': 'ILLUMINA'} for x in case['in_rgids']]
-    h = bamgen.make_header(CONTIGS, so='unsorted', extra=extra)
+    h = bamgen.make_header(case.get('contigs', CONTIGS), so='unsorted', extra=extra)
+    names = [n for n, _ in case.get('contigs', CONTIGS)]
     reads = []
     for k, r in enumerate(case['recs']):
         kind = r['kind']
         tags = {'NH': 1, 'DS': 10 + k}
         if r['sm'] != '':
-            tags['SM'] = r['sm']
+            tags[case.get('tagid', 'SM')] = r['sm']
         if r['rg'] != '':
             tags['RG'] = r['rg']
         kw = dict(reverse=kind == 'reverse', secondary=kind == 'secondary', supplementary=kind == 'supplementary',
                   unmapped=kind == 'unmapped', dup=kind == 'dup', qcfail=kind == 'qcfail', read1=kind == 'read1', read2=kind == 'read2',
                   paired=kind in ('read1', 'read2'))
-        contig = 'chr2' if k % 5 == 4 else 'chr1'
         seq = 'ACGTTGCA'[k % 4:] + 'GATTACA'
-        reads.append(bamgen.make_read(h, 'r%d' % r['id'], contig, 10 + 3 * k, seq=seq, tags=tags, **kw))
+        if 'ci' in r:            # split cases carry contig index (-1 = none), position and mapping quality in the description
+            contig, pos = (names[r['ci']] if r['ci'] >= 0 else None), r['pos']
+            if contig is None:
+                kw['unmapped'] = True
+            kw['mapq'] = r['mapq']
+        else:
+            contig, pos = ('chr2' if k % 5 == 4 else 'chr1'), 10 + 3 * k
+        reads.append(bamgen.make_read(h, 'r%d' % r['id'], contig, pos, seq=seq, tags=tags, **kw))
     bamgen.write_bam(path, h, reads, sort=False, index=False)
 
 
-def rec_obs(r):
+def rec_obs(r, tag='SM'):
     name = r.query_name
     try:
         rid = int(name[1:]) if name.startswith('r') else -1
     except ValueError:
         rid = -1
     fields = r.to_string().split('\t')
+    fields[2], fields[6] = str(r.reference_id), str(r.next_reference_id)      # contigs by index: the fingerprint survives a renamed header
     core, tags = fields[:11], sorted(t for t in fields[11:] if not t.startswith('RG:'))
-    return {'id': rid, 'sm': r.get_tag('SM') if r.has_tag('SM') else '', 'rg': r.get_tag('RG') if r.has_tag('RG') else '',
-            'dg': hashlib.md5('|'.join(core + tags).encode()).hexdigest()[:12]}
+    return {'id': rid, 'sm': str(r.get_tag(tag)) if r.has_tag(tag) else '', 'rg': r.get_tag('RG') if r.has_tag('RG') else '',
+            'dg': hashlib.md5('|'.join(core + tags).encode()).hexdigest()[:12],
+            'dup': bool(r.is_duplicate), 'mapq': int(r.mapping_quality), 'tid': int(r.reference_id), 'pos': int(r.reference_start)}
 
 
-def bam_obs(path):
-    """what is on disk: header read groups, @SQ fingerprint, the records in file order; ok = readable to the end"""
-    o = {'ok': True, 'rgids': [], 'sq': '', 'recs': []}
+def bam_obs(path, tag='SM'):
+    """what is on disk: header read groups, @SQ fingerprint and names, the records in file order; ok = readable to the end"""
+    o = {'ok': True, 'rgids': [], 'sq': '', 'sqn': [], 'recs': []}
     try:
         with pysam.AlignmentFile(path, 'rb', check_sq=False) as f:
             hd = f.header.to_dict()
             o['rgids'] = [str(x.get('ID', '')) for x in hd.get('RG', [])]
             o['sq'] = hashlib.md5(json.dumps(hd.get('SQ', []), sort_keys=True).encode()).hexdigest()[:12]
+            o['sqn'] = [[str(x.get('SN', '')), int(x.get('LN', 0))] for x in hd.get('SQ', [])]
             for r in f.fetch(until_eof=True):
-                o['recs'].append(rec_obs(r))
+                o['recs'].append(rec_obs(r, tag))
     except Exception:
         o['ok'] = False
     return o
@@ -203,7 +213,143 @@ def run_case(case, workdir):
     return ev
 
 
+SPLIT_MODULE = 'singlecellmultiomics.bamProcessing.split_bam_by_cluster'
+
+
+def annot_text(case):
+    out = []
+    if not case['nocol']:
+        out.append('\t'.join(case['colnames']))
+    for row in case['rows']:
+        out.append('\t'.join([row['s'], ''.join(row['c'])] + (['extra'] if case.get('extra_col') else [])))
+    return '\n'.join(out) + ('\n' if out else '')
+
+
+def run_split_case(case, workdir):
+    """split_bam_by_cluster.py main() in-process (runpy, sys.argv); sort and index are pysam's built-in samtools"""
+    shutil.rmtree(workdir, True)
+    outroot = os.path.join(workdir, 'out')
+    os.makedirs(outroot)
+    inbam = os.path.join(workdir, case['bname'] + '.bam')
+    tag = case['tagid']
+    make_input(inbam, case)
+    with pysam.AlignmentFile(inbam, 'rb', check_sq=False) as f:
+        hd = f.header.to_dict()
+        in_obs = [rec_obs(r, tag) for r in f.fetch(until_eof=True)]
+    ev = dict(case)
+    ev['ev'] = 'run'
+    ev['in_obs'] = in_obs
+    ev['in_sqn'] = [[str(x['SN']), int(x['LN'])] for x in hd.get('SQ', [])]
+    af = os.path.join(workdir, 'annot.tsv')
+    with open(af, 'w') as f:
+        f.write(annot_text(case))
+    argv = ['-infile', inbam, '-annotfile', af, '-outdir', outroot, '-mapq', str(case['mapq'])]
+    if tag != 'SM' or case.get('tagid_explicit'):
+        argv += ['-tagid', tag]
+    if case['nocol']:
+        argv.append('--annot_no_colnames')
+    if case['chr']:
+        argv.append('--add_chr_prefix')
+    if case['overwrite']:
+        argv.append('--overwrite')
+    if case['quiet']:
+        argv.append('--quiet')
+    raised = ''
+    real_argv, real_out = sys.argv, sys.stdout
+    sys.argv = ['split_bam_by_cluster.py'] + argv
+    sys.stdout = io.StringIO()
+    try:
+        with warnings.catch_warnings():
+            warnings.simplefilter('ignore')
+            runpy.run_module(SPLIT_MODULE, run_name='__main__', alter_sys=True)
+    except SystemExit as ex:
+        if ex.code not in (0, None):
+            raised = 'SystemExit'
+    except Exception as ex:
+        raised = type(ex).__name__
+    finally:
+        sys.argv, sys.stdout = real_argv, real_out
+    ev['raised'] = raised
+    bams, other = walk_bams(outroot)
+    ev['files'] = [dict(name=b, **bam_obs(os.path.join(outroot, b), tag)) for b in bams]
+    if raised and not all(x['ok'] for x in ev['files']):
+        gc.collect()
+        ev['files'] = [dict(name=b, **bam_obs(os.path.join(outroot, b), tag)) for b in bams]
+    ev['other'] = other
+    return ev
+
+
 # ------------------------------------------------------------------------------------------------ cases
+SPLIT_CLUSTERS = ['g', 'h', 'c1', 'cl.2', 'A-b', 'x_y', '0']
+SPLIT_CONTIGS = [[('1', 100000), ('2', 5000)], [('chr1', 100000), ('chrM', 5000)], [('1', 100000), ('2', 5000), ('MT', 300)]]
+
+
+def split_complete(case, rng):
+    case.setdefault('via', 'runpy')
+    case.setdefault('in_rgids', ['old'])
+    case.setdefault('bname', 'in')
+    case.setdefault('tagid', 'SM')
+    case.setdefault('colnames', ['cell', 'cluster'])
+    case.setdefault('contigs', [list(x) for x in SPLIT_CONTIGS[0]])
+    case.setdefault('mapq', 40)
+    case.setdefault('overwrite', False)
+    case.setdefault('quiet', True)
+    case['contigs'] = [tuple(x) for x in case['contigs']]
+    return case
+
+
+def split_from_scenario(s, rng):
+    """TLC scenario of Mode = "split": records [sm, dup, lowq, pos], rows [s, c], nocol, chr"""
+    recs = []
+    for i, r in enumerate(s['recs']):
+        recs.append({'id': i + 1, 'sm': r['sm'], 'rg': 'old', 'kind': 'dup' if r['dup'] else rng.choice(['primary', 'reverse', 'read1']),
+                     'dup': bool(r['dup']), 'mapq': 5 if r['lowq'] else 60, 'ci': 0, 'pos': 100 * r['pos']})
+    case = {'src': 'scenario', 'mode': 'split', 'recs': recs, 'rows': [{'s': x['s'], 'c': list(x['c'])} for x in s['rows']],
+            'nocol': bool(s['nocol']), 'chr': bool(s['chr'])}
+    return split_complete(case, rng)
+
+
+def random_split_case(rng, big=False):
+    nrec = rng.choice([0, 1, 2, 3, 5, 8, 13, 21, 34] + ([60, 120] if big else []))
+    pool = rng.sample(SAMPLES, rng.randint(2, len(SAMPLES)))
+    contigs = rng.choice(SPLIT_CONTIGS)
+    sorted_input = rng.random() < 0.5
+    coords = [(rng.randrange(len(contigs)), rng.choice([0, 7, 50, 50, 51, 200, 299])) for _ in range(nrec)]
+    if sorted_input:
+        coords.sort()
+    ids = list(range(1, nrec + 1))
+    if rng.random() < 0.3:
+        rng.shuffle(ids)
+    in_rgids = rng.choice([['old'], ['old', 'other'], []])
+    mapq = rng.choice([0, 10, 40, 60])
+    recs = []
+    for i, (ci, pos) in zip(ids, coords):
+        kind = rng.choice(['dup', 'reverse', 'secondary', 'supplementary', 'qcfail', 'read1', 'read2'] + ['primary'] * 7)
+        if rng.random() < 0.06:
+            ci = -1                       # no contig at all: sorted to the end
+        recs.append({'id': i, 'sm': '' if rng.random() < 0.1 else rng.choice(pool), 'rg': rng.choice(in_rgids + ['']) if in_rgids else '',
+                     'kind': kind, 'dup': kind == 'dup', 'mapq': rng.choice([0, 5, 39, 40, 41, 60]), 'ci': ci, 'pos': pos})
+    if not sorted_input and rng.random() < 0.5:
+        recs.sort(key=lambda r: (r['ci'] < 0, r['ci'], r['pos']))        # sorted with the unplaced records last, like a real file
+    clusters = rng.sample(SPLIT_CLUSTERS, rng.choice([1, 1, 2, 2, 3, 4]))
+    rows = []
+    for smp in pool + (['Missing'] if rng.random() < 0.1 else []) + (['never_seen'] if rng.random() < 0.3 else []):
+        if rng.random() < 0.75:
+            rows.append({'s': smp, 'c': list(rng.choice(clusters))})
+    if rows and rng.random() < 0.12:      # a sample on two lines: refused
+        x = dict(rng.choice(rows))
+        if rng.random() < 0.5:
+            x['c'] = list(rng.choice(clusters))
+        rows.insert(rng.randint(0, len(rows)), x)
+    rng.shuffle(rows)
+    case = {'src': 'random', 'mode': 'split', 'recs': recs, 'in_rgids': in_rgids, 'rows': rows, 'nocol': rng.random() < 0.4,
+            'chr': rng.random() < 0.4, 'mapq': mapq, 'contigs': [list(x) for x in contigs], 'bname': rng.choice(['in', 'in', 'lib.1', 'a_b']),
+            'tagid': rng.choice(['SM', 'SM', 'SM', 'XC']), 'tagid_explicit': rng.random() < 0.3, 'extra_col': rng.random() < 0.2,
+            'overwrite': rng.random() < 0.3, 'quiet': rng.random() < 0.8,
+            'colnames': rng.choice([['cell', 'cluster'], ['a', 'g'], ['', '']])}
+    return split_complete(case, rng)
+
+
 SAMPLES = ['a', 'b', 'c', 'cellA_1', 'lib.2', 's-3']
 API_GROUPS = ['g', 'h', '', 'grp1', 'cl.2', 'A-b', 'x_y']
 RAW_GROUPS = ['g', 'h', 'grp1', 'cl.2', 'my group', "it's", 'a/b', 'g\th', 'g/', "'", 'x  y', 'A-b', '(g)', 'h.']
@@ -312,9 +458,9 @@ def main():
         with open(sys.argv[4]) as f:
             given = json.load(f)
     rng = random.Random(seed)
-    cases = [complete(dict(c), rng) for c in given.get('cases', [])]
+    cases = [split_complete(dict(c), rng) if c['mode'] == 'split' else complete(dict(c), rng) for c in given.get('cases', [])]
     for s in given.get('scenarios', []):
-        cases.append(from_scenario(s, rng))
+        cases.append(split_from_scenario(s, rng) if s['mode'] == 'split' else from_scenario(s, rng))
     if tier != 'replay':
         n_api, n_cli, n_sub = (500, 350, 2) if tier == 'quick' else (6000, 4000, 20)
         for k in range(n_api):
@@ -325,6 +471,8 @@ def main():
             c = random_case(rng, 'cli')
             c['via'] = 'subprocess'
             cases.append(c)
+        for k in range(150 if tier == 'quick' else 2500):
+            cases.append(random_split_case(rng, big=tier != 'quick' and k % 10 == 0))
         scn_cli = [c for c in cases if c['src'] == 'scenario' and c['mode'] == 'cli']
         for c in scn_cli[:n_sub]:
             c2 = json.loads(json.dumps(c))
@@ -334,7 +482,7 @@ def main():
     try:
         with open(out, 'w') as f:
             for tid, case in enumerate(cases, 1):
-                ev = run_case(case, os.path.join(work, 'c'))
+                ev = (run_split_case if case['mode'] == 'split' else run_case)(case, os.path.join(work, 'c'))
                 ev['tid'] = tid
                 f.write(json.dumps(ev, separators=(',', ':')) + '\n')
     finally:
